@@ -24,27 +24,24 @@ NORETURN = {"libast_fatal_error"}
 
 
 def in_should_parse(f, node):
-    """node is controlled by the pass test: in the then-arm of if (SHOULD_PARSE(..)), or after an
-    `if (!SHOULD_PARSE(..)) return ...;` earlier in an enclosing block"""
+    """node is controlled by the pass test: in the arm of an `if` that the pass test selects, or after an
+    `if (<not the pass test>) return ...;` earlier in an enclosing block"""
     _CUR_F[0] = f
     child = node
     for anc in f.ancestors(node):
         if anc.get("k") == "if":
             inthen = any(y is node for y in walk(anc["then"]))
-            c = X.strip(anc["cond"])
-            neg = c.get("k") == "un" and c.get("op") == "!"
-            if inthen and is_sp(anc["cond"]) and not neg:
+            pol = sp_polarity(anc["cond"])
+            if inthen and pol is True:
                 return True
-            if (not inthen) and anc.get("else") is not None and is_sp(anc["cond"]) and neg:
+            if (not inthen) and anc.get("else") is not None and pol is False:
                 return True
         if anc.get("k") == "block":
             for s_ in anc.get("ch", []):
                 if s_ is child or any(y is child for y in [s_]):
                     break
-                if s_.get("k") == "if" and is_sp(s_["cond"]):
-                    c = X.strip(s_["cond"])
-                    if c.get("k") == "un" and c.get("op") == "!" and always_returns(s_["then"]):
-                        return True
+                if s_.get("k") == "if" and sp_polarity(s_["cond"]) is False and always_returns(s_["then"]):
+                    return True
         child = anc
     return False
 
@@ -109,17 +106,158 @@ _CUR_F = [None]
 
 
 def is_sp(cond):
-    """the condition is the pass test: the SHOULD_PARSE expansion itself or a local holding its value"""
-    if raw_sp(cond):
-        return True
+    """the condition is the pass test (either polarity)"""
+    return sp_polarity(cond) is not None
+
+
+_MASKS = {}
+
+
+def _pass_masks(u):
+    """(setting-preparse bit, option-preparse bit) as the unit's macro expansions spell them"""
+    if u.name not in _MASKS:
+        a = b = None
+        for f in u.functions.values():
+            for x in walk(f.body):
+                if x.get("cv") is not None:
+                    for m in x.get("m", []):
+                        # pre-order walk: the first node met is the whole macro body
+                        if m == "b:SPIFOPT_SETTING_PREPARSE" and a is None:
+                            a = x["cv"]
+                        if m == "b:SPIFOPT_FLAG_PREPARSE" and b is None:
+                            b = x["cv"]
+        _MASKS[u.name] = (a, b)
+    return _MASKS[u.name]
+
+
+class _NoValue(Exception):
+    pass
+
+
+def _eval_pass(f, e, val, depth=0, env=None):
+    """value of the integer expression e when the parser's PREPARSE setting is val[0] and the option's PREPARSE flag is
+    val[1]; everything else the expression could read makes it undecidable (_NoValue).  Finite abstract evaluation: locals
+    written once are replaced by their definition, unit-local helpers made of declarations, if / return are followed."""
+    amask, bmask = _pass_masks(f.unit)
+    env = env or {}
+
+    def ev(e):
+        e = X.strip(e)
+        if e is None:
+            raise _NoValue()
+        cv = X.const_val(e)
+        if cv is not None:
+            return cv
+        k = e.get("k")
+        if k == "bin" and e.get("op") == "&":
+            for x, y in ((e["ch"][0], e["ch"][1]), (e["ch"][1], e["ch"][0])):
+                m = X.const_val(y)
+                sx = X.strip(x)
+                if m is not None and sx is not None and sx.get("k") == "member" and sx.get("n") == "flags":
+                    via_list = any(z.get("k") == "member" and z.get("n") == "opt_list" for z in walk(sx))
+                    root = any(z.get("k") == "ref" and z.get("n") == "spifopt_settings" for z in walk(sx))
+                    if root and not via_list and m == amask:
+                        return amask if val[0] else 0
+                    if root and via_list and m == bmask:
+                        return bmask if val[1] else 0
+            raise _NoValue()
+        if k == "un" and e.get("op") == "!":
+            return 0 if ev(e["ch"][0]) else 1
+        if k == "bin" and e.get("op") in ("&&", "||", "==", "!=", "^"):
+            a = ev(e["ch"][0])
+            if e["op"] == "&&":
+                return 1 if (a and ev(e["ch"][1])) else 0
+            if e["op"] == "||":
+                return 1 if (a or ev(e["ch"][1])) else 0
+            b = ev(e["ch"][1])
+            return {"==": int(a == b), "!=": int(a != b), "^": a ^ b}[e["op"]]
+        if k == "cond":
+            return ev(e["ch"][1]) if ev(e["ch"][0]) else ev(e["ch"][2])
+        if k == "ref" and e.get("rk") in ("local", "param"):
+            if e["d"] in env:
+                return env[e["d"]]
+            ws = _single_write(f, e["d"])
+            if ws is None:
+                raise _NoValue()
+            return ev(ws)
+        if k == "call" and depth < 3:
+            g = f.unit.functions.get(X.callee_name(e) or "")
+            if g is None or g.body is None:
+                raise _NoValue()
+            return _eval_body(g, val, depth + 1)
+        raise _NoValue()
+    return ev(e)
+
+
+_WRITES = {}
+
+
+def _single_write(f, d):
+    key = (f.unit.name, f.name)
+    if key not in _WRITES:
+        w = {}
+        for x in walk(f.body):
+            if x.get("k") == "assign" or (x.get("k") == "un" and x.get("op") in ("++", "--", "&")):
+                l = X.strip(x["ch"][0])
+                if l is not None and l.get("k") == "ref":
+                    w.setdefault(l["d"], []).append(x["ch"][1] if x.get("k") == "assign" and x.get("op") == "=" else None)
+            elif x.get("k") == "decl":
+                for dcl in x.get("decls", ()):
+                    if dcl.get("init") is not None:
+                        w.setdefault(dcl["d"], []).append(dcl["init"])
+        _WRITES[key] = w
+    ws = _WRITES[key].get(d)
+    if not ws or len(ws) != 1 or ws[0] is None:
+        return None
+    return ws[0]
+
+
+def _eval_body(g, val, depth):
+    def run(stmts):
+        for s_ in stmts:
+            if s_ is None:
+                continue
+            k = s_.get("k")
+            if k == "decl" or k == "null":
+                continue
+            if k in ("block", "compound"):
+                r = run(s_.get("ch", []))
+                if r is not None:
+                    return r
+                continue
+            if k == "return" and s_.get("val") is not None:
+                return ("ret", _eval_pass(g, s_["val"], val, depth))
+            if k == "if":
+                c = _eval_pass(g, s_["cond"], val, depth)
+                arm = s_["then"] if c else s_.get("else")
+                if arm is not None:
+                    r = run([arm])
+                    if r is not None:
+                        return r
+                continue
+            raise _NoValue()
+        return None
+    r = run([g.body])
+    if r is None:
+        raise _NoValue()
+    return r[1]
+
+
+def sp_polarity(cond):
+    """True if cond holds exactly when the option belongs to the current pass (PREPARSE setting == option's PREPARSE flag),
+    False if it holds exactly when it does not, None if it is something else.  Decided over the four valuations."""
     f = _CUR_F[0]
-    if f is not None:
-        sl = sp_locals(f)
-        c = X.strip(cond)
-        while c is not None and c.get("k") == "un" and c.get("op") == "!":
-            c = X.strip(c["ch"][0])
-        return c is not None and c.get("k") == "ref" and c.get("d") in sl
-    return False
+    if f is None:
+        return None
+    try:
+        tt = [bool(_eval_pass(f, cond, (a, b))) == (a == b) for a in (0, 1) for b in (0, 1)]
+    except _NoValue:
+        return None
+    if all(tt):
+        return True
+    if not any(tt):
+        return False
+    return None
 
 
 def mask_locals(f):
